@@ -6,7 +6,7 @@ Line splitting: the lines of a CRLF-terminated text are its lines.
 namespace Rtsp.Sdp
 
 /-- no carriage return, no line feed -/
-def NoNL (s : Str) : Prop := ∀ c ∈ s, c ≠ 10 ∧ c ≠ 13
+abbrev NoNL (s : Str) : Prop := ∀ c ∈ s, c ≠ 10 ∧ c ≠ 13
 
 theorem filter_cr_line {l : Str} (h : NoNL l) : l.filter (· != 13) = l := by
   rw [List.filter_eq_self]
